@@ -163,6 +163,23 @@ theorem flip_storage_history_witness :
   simp [SatOpt, Sat, conHolds, genCon, SZ.signbit, SZ.toRat, SZ.neg_def] at h1
   exact absurd h1 (by decide)
 
+/-- Second trigger, confirmed on the C++ as well: `checkSepPair` (behind the read-only queries
+    `getCardinalDir`, `areHAligned`, `areVAligned`) writes the flag into the *stored* pair. After
+    `addSep(0,1,C,EAST,≥,5); getCardinalDir(1,0)` the request `addSep(0,1,C,EAST,≥,10)` — same
+    orientation as the one that created the pair — is stored as `W ≥ 10`. -/
+theorem flip_storage_query_witness :
+    (runOps false .empty
+      [.addSep 0 1 .centre .east .ineq ⟨false, 5⟩, .getCardinalDir 1 0,
+       .addSep 0 1 .centre .east .ineq ⟨false, 10⟩]).lookup (0, 1) = some
+      { src := 0, tgt := 1, xgt := .centre, xst := .ineq, xgap := ⟨true, 10⟩,
+        ygt := .centre, yst := .eq, ygap := ⟨false, 0⟩, flippedRetrieval := true } ∧
+    (runOps true .empty
+      [.addSep 0 1 .centre .east .ineq ⟨false, 5⟩, .getCardinalDir 1 0,
+       .addSep 0 1 .centre .east .ineq ⟨false, 10⟩]).lookup (0, 1) = some
+      { src := 0, tgt := 1, xgt := .centre, xst := .ineq, xgap := ⟨false, 10⟩,
+        ygt := .centre, yst := .eq, ygap := ⟨false, 0⟩, flippedRetrieval := false } := by
+  decide
+
 /-- hence the history statement is false for the flag semantics as coded -/
 theorem flip_storage_history_false_as_coded :
     ¬ ∀ (m : SepMatrix) (a b : Nat), a ≠ b → ∀ (gt : GapType) (sd : SepDir) (st : SepType) (g : SZ),
